@@ -12,13 +12,14 @@ EXTENDS BlockRequestsOps
 
 CONSTANTS Trunk,    \* length of the initial linear chain
           NBlocks,  \* random blocks added on top
-          NReq      \* requests per behaviour
+          NReq,     \* requests per behaviour
+          TipW      \* of 4: how often a new block extends the newest block
 
-VARIABLES par, fin, jm, reqs, done
-vars == <<par, fin, jm, reqs, done>>
+VARIABLES par, fin, jm, top, reqs, done
+vars == <<par, fin, jm, top, reqs, done>>
 
 Init == /\ par = [i \in 1..Trunk |-> i - 1]
-        /\ fin = -1 /\ jm = 0 /\ reqs = <<>> /\ done = FALSE
+        /\ fin = -1 /\ jm = 0 /\ top = 0 /\ reqs = <<>> /\ done = FALSE
 
 (* RandomElement arguments mention a variable so that TLC does not cache them *)
 Z == 0 * Len(par) + 0 * Len(reqs)
@@ -27,19 +28,20 @@ AddBlock ==
   /\ Len(par) < Trunk + NBlocks
   /\ LET n == Len(par)
          w == RandomElement(1..(4 + Z))
-         p == IF w <= 2 THEN n
+         p == IF w <= TipW THEN n
               ELSE IF w = 3 THEN RandomElement((IF n > 3 THEN n - 3 ELSE 0)..n)
               ELSE RandomElement(0..n)
      IN par' = Append(par, p)
-  /\ UNCHANGED <<fin, jm, reqs, done>>
+  /\ UNCHANGED <<fin, jm, top, reqs, done>>
 
 PickFin ==
   /\ Len(par) = Trunk + NBlocks /\ fin = -1
   /\ fin' = (IF RandomElement(1..(2 + Z)) = 1 THEN 0 ELSE RandomElement(0..Len(par)))
   /\ jm' = RandomElement(0..(2 + Z))
+  /\ top' = (LET K == SFKnown(par, fin') IN SFNum(par, CHOOSE l \in SFDeepest(par, K) : TRUE))
   /\ UNCHANGED <<par, reqs, done>>
 
-Top == LET K == SFKnown(par, fin) IN SFNum(par, CHOOSE l \in SFDeepest(par, K) : TRUE)
+Top == top
 
 NumStarts == {n \in (0..3) \cup (126..131) \cup ((Top - 131)..(Top + 2)) : n >= 0 /\ (Trunk > 0 \/ n <= Top + 2)}
 MaxSeq == <<-1, -1, 0, 1, 1, 2, 2, 3, 3, 4, 5, 127, 128, 129, 1000>>
@@ -56,9 +58,9 @@ PickReq ==
 AddReq ==
   /\ fin >= 0 /\ Len(reqs) < NReq
   /\ reqs' = Append(reqs, PickReq)
-  /\ UNCHANGED <<par, fin, jm, done>>
+  /\ UNCHANGED <<par, fin, jm, top, done>>
 
-Finish == /\ ~done /\ Len(reqs) = NReq /\ done' = TRUE /\ UNCHANGED <<par, fin, jm, reqs>>
+Finish == /\ ~done /\ Len(reqs) = NReq /\ done' = TRUE /\ UNCHANGED <<par, fin, jm, top, reqs>>
 
 NextRand == AddBlock \/ PickFin \/ AddReq \/ Finish
 SpecRand == Init /\ [][NextRand]_vars
